@@ -133,6 +133,14 @@ theorem whole_input_parse_on_the_padded_copy_accept_iff (t : Buf) :
     (DomP.fromSlicePadded t).isSome = true ↔ (Spec.document true t).isSome = true :=
   DomP.fromSlicePadded_accept_iff t
 
+/-- the padding changes nothing about acceptance: the parse on the padded copy (`from_slice` on `&[u8]`) and the decoding parser on
+    the bare text accept the same texts (both are the strict grammar, by the two theorems above) -/
+theorem padding_does_not_change_acceptance (t : Buf) :
+    (DomP.fromSlicePadded t).isSome = (DomP.document t).isSome := by
+  have h1 := DomP.fromSlicePadded_accept_iff t
+  have h2 := DomP.document_accept_iff t
+  cases ha : (DomP.fromSlicePadded t).isSome <;> cases hb : (DomP.document t).isSome <;> simp_all
+
 /-- the bytewise scan of `Space` is the scalar `skip_space` every other model uses -/
 theorem bytewise_is_scalar_skip_space (buf : Buf) (i : Nat) :
     Impl.skipSpace buf i = (match Space.bytewise buf i with | (some c, j) => some (c, j) | (none, _) => none) := by
